@@ -350,6 +350,9 @@ def run(chk):
         op = rng.choice(["lit", "neg", "negneg", "add", "sub", "mul", "div", "add", "mul", "div"])
         if op == "lit":
             cases.append((op, (a,), flit(a), f"fl op lit {hex16(a)}", orc(lambda: a)))
+            # the same number read from JSON text (the `serde_json` site of the table)
+            jtxt = repr(a)
+            cases.append(("json", (a,), f"json_deserialize('{jtxt}')", f"fl op json {hex16(a)}", f"(union 0 (float {hex16(a)}))"))
         elif op == "neg":
             cases.append((op, (a,), f"-{flit(a)}", f"fl op neg {hex16(a)}", orc(lambda: -a)))
         elif op == "negneg":
@@ -411,6 +414,8 @@ def run(chk):
             chk.violation(f"core:{op}:{kind}", f"{expr} evaluates to {d}; IEEE arithmetic with the finiteness check gives {want}", replay)
             continue
         gm = "ERR" if mo == "err" else mo
+        if op == "json" and gm.startswith("(float"):
+            gm = f"(union 0 {gm})"
         if gm != got:
             chk.violation(f"tie:fl:{op}", f"model disagrees with the implementation (which matches the oracle) on {expr}: model={mo} impl={d}",
                           dict(replay, model=mline, model_out=mo), no_input=True)
